@@ -17,6 +17,8 @@ Violations(line) ==
   \cup R("user-metadata", o.signOK /\ o.verifyOK /\ ~o.metaOK)
      \* (C01) a blob that could not be read to its end is never verified, whatever the signature covers
   \cup R("broken-reader", o.brokenReader = "accepted")
+     \* a signature verifies the blob it was made for and no other, whatever metadata is asked for
+  \cup R("wrong-blob", o.wrongBlob = "accepted")
 
 Init == l = 1
 Next == /\ l <= Len(Trace)
